@@ -459,5 +459,19 @@ Tuple of (f, g, h) where:
         doc="The type of this rule, as defined by a CSSRule type constant.",
     )
 
+    def _getValid(self):
+        """Check the style declaration and the margin rules for validity."""
+        if not self.style.valid:
+            return False
+        for rule in self.cssRules:
+            if hasattr(rule, 'valid') and not rule.valid:
+                return False
+        return True
+
+    valid = property(
+        _getValid,
+        doc='``True`` if the style declaration and all margin rules are valid',
+    )
+
     # constant but needed:
     wellformed = property(lambda self: True)
